@@ -7,10 +7,11 @@ epoch re-announced, iteration started over), re-iteration of a finished epoch.
 from simkit import core
 
 
-def gen_world(rng, kinds):
+def gen_world(rng, kinds, big=False):
     kind = rng.choice(kinds)
-    W = rng.choice([1, 2, 2, 3, 4, 5, 6])
-    N = rng.choice([1, 2, 3, rng.randint(1, 24), rng.randint(4, 24), rng.randint(10, 24)])
+    W = rng.choice([1, 2, 2, 3, 4, 5, 6] + ([7, 8, 12] if big else []))
+    top = 72 if big else 24
+    N = rng.choice([1, 2, 3, rng.randint(1, top), rng.randint(4, top), rng.randint(10, top)])
     w = dict(kind=kind, W=W, N=N, seed=rng.choice([0, 1, 5, rng.randint(0, 10 ** 6)]))
     if kind == "dist":
         r = rng.choice([1, 1, 2, 3, 4])
@@ -73,9 +74,9 @@ def make_sampler(w, dataset, rank, W):
     raise ValueError(k)
 
 
-def gen_plan(seed, kinds):
+def gen_plan(seed, kinds, big=False):
     st = core.Streams(seed)
-    w = gen_world(st("world"), kinds)
+    w = gen_world(st("world"), kinds, big)
     ro = st("ops")
     epochs = ro.choice([[0, 1, 2], [0, 1, 2, 3, 4], [ro.randint(0, 50) for _ in range(3)], [3, 0, 3], [0, 0, 1]])
     rf = st("faults")
